@@ -12,7 +12,7 @@ ENTRIES = []
 RULE = ("one of the 8 writers (default or explicit file name, random stem), curve length 0-300, magnitudes 1e-14..1e6 of both signs, "
         "-0.0, tiny negatives that round to -0.000000000000, half-way cases k+0.5 ulp of 1e-12; a second kind of case writes a merged "
         "S(Q) on the 0.01 lattice and feeds the file back in as a dataset; non-trivial = at least 2 rows")
-DIST = ["kind", "writer", "explicit"]
+DIST = ["kind", "writer", "explicit", "has_prior"]
 SHRINK = None
 TRUSTED = ["lean/PystogVerif/Model/Writer.lean is a hand-written model of _write_out_to_file and of the reader's text handling: tied to "
            "/repo by a byte-exact comparison of the files", "np.loadtxt's final decimal->nearest-double step is outside the model",
@@ -49,7 +49,18 @@ def gen(rng, i, tier):
     if rng.random() < 0.75:
         n = int(rng.choice([0, 1, 2, 3, int(rng.integers(4, 60 if tier == "quick" else 300))]))
         w = int(rng.integers(0, len(WRITERS)))
-        return dict(kind="write", writer=WRITERS[w][0], w=w, x=tolist(values(rng, n)), y=tolist(values(rng, n)),
+        xs = values(rng, n)
+        prior = None
+        if n >= 3 and rng.random() < 0.3:
+            # the same object wrote other curves just before: same length, same first and last abscissa, other interior points
+            # (and one curve of another length), through the same writer or another one
+            alt = xs.copy()
+            alt[1:-1] = values(rng, n - 2)
+            prior = [dict(w=int(w if rng.random() < 0.6 else rng.integers(0, len(WRITERS))), x=tolist(alt), y=tolist(values(rng, n))),
+                     dict(w=int(rng.integers(0, len(WRITERS))), x=tolist(values(rng, n + 1)), y=tolist(values(rng, n + 1)))]
+            if rng.random() < 0.5:
+                prior = prior[::-1]
+        return dict(kind="write", writer=WRITERS[w][0], w=w, x=tolist(xs), y=tolist(values(rng, n)), prior=prior, has_prior=prior is not None,
                     explicit=bool(rng.random() < 0.4),
                     stem=str(rng.choice(["s%d" % int(rng.integers(0, 10**6)), "run_1.5K", "sample.v1.2", "a.b", "x-y_z", "out."])),
                     rsf=str(rng.choice(["g(r)", "G(r)", "GK(r)"])))
@@ -69,6 +80,15 @@ def write_file(case, d):
     cwd = os.getcwd()
     os.chdir(d)
     try:
+        for k, pr in enumerate(case.get("prior") or []):
+            pm, psp, pta, _ = WRITERS[pr["w"]]
+            pt = getattr(st, pta)
+            (st.q_master if psp == "q" else st.r_master)[pt] = np.asarray(pr["x"], dtype=float)
+            (st.sq_master if psp == "q" else st.gr_master)[pt] = np.asarray(pr["y"], dtype=float)
+            getattr(st, pm)("prior%d.tmp" % k)
+            os.remove("prior%d.tmp" % k)
+        (st.q_master if sp == "q" else st.r_master)[title] = x
+        (st.sq_master if sp == "q" else st.gr_master)[title] = y
         if case["explicit"]:
             name = "explicit_%s.dat" % meth
             getattr(st, meth)(name)
